@@ -85,6 +85,7 @@ COVER = [
     ({"RULE-COHERENCE"}, {"GEN-KERNEL"}),
     ({"PERM-FLAG-IMPL"}, {"GEN-INTEGRAL-DRIVER"}),
     ({"EXPR-COEF-POS"}, {"GEN-EXPRESSION-IR", "ANALYZE-OBJECTS"}),
+    ({"CONJ-LAW"}, {"FACT-DRIVER"}),
     ({"IDX-SPACE", "PERM-CONSISTENT", "FORM-KERNEL-ALIGN"}, {"GEN-FORM"}),
 ]
 
